@@ -126,3 +126,31 @@ M("C14-M14", "C14", "src/python/rv/readers/module.py", "self.object = Module() i
 M("C14-M15", "C14", MODULE, "        return self.index + 1", "        return self.index", mention="__int__")
 M("C14-T1", "C14", PROJECT, "                module.index = self.module_index(module)\n", "                module.index = len(self.modules) - 1\n", expect="T")
 M("C14-T2", "C14", PROJECT, "                self.modules.append(module)\n                module.index = self.module_index(module)\n", "                module.index = len(self.modules)\n                self.modules.append(module)\n", expect="T")
+
+# ----------------------------------------------------------------------------------- C01
+RPATTERN = "src/python/rv/readers/pattern.py"
+M("C01-D1", "C01", MODULE, '        name = self.name.encode(ENCODING)[:32].decode(ENCODING, "ignore")\n        yield b"SNAM", name.encode(ENCODING).ljust(32, b"\\0")\n', '        yield b"SNAM", self.name.encode(ENCODING)[:32].ljust(32, b"\\0")\n', mention="SNAM")
+M("C01-M1", "C01", RSUNVOX, "    def process_MXOF(self, data):\n        (self.object.modules_x_offset,) = unpack(\"<i\", data)", "    def process_MXOF(self, data):\n        (self.object.modules_y_offset,) = unpack(\"<i\", data)", mention="MXOF")
+M("C01-M2", "C01", PROJECT, 'yield b"PATL", pack("<I", self.current_line)', 'yield b"PATL", pack("<H", self.current_line)', mention="PATL")
+M("C01-M3", "C01", RSUNVOX, "    def process_TGD2(self, data):\n        (self.object.time_grid2,) = unpack(\"<I\", data)\n\n", "", mention="TGD2")
+M("C01-M4", "C01", PROJECT, "            if pattern is not None:\n                yield from pattern.iff_chunks()\n            yield b\"PEND\", b\"\"", "            if pattern is not None:\n                yield from pattern.iff_chunks()\n                yield b\"PEND\", b\"\"", mention="PEND")
+M("C01-M5", "C01", PROJECT, "        if self.timeline_position != 0:", "        if self.timeline_position > 0:", mention="TIME")
+M("C01-M6", "C01", PROJECT, "        yield (\n            b\"SFGS\",\n            pack(\"<I\", self.receive_sync_midi | (self.receive_sync_other << 3)),\n        )\n", "", mention="SFGS")
+M("C01-M7", "C01", MODULE, "pack(\"<I\", int(self.midi_in_always) + (self.midi_in_channel << 1))", "pack(\"<I\", int(self.midi_in_always) + (self.midi_in_channel << 2))", mention="SMII")
+M("C01-M8", "C01", PROJECT, 'structure = "<" + "i" * len(links)', 'structure = "<" + "I" * len(links)', mention="SLNK")
+M("C01-M9", "C01", RPATTERN, "    def process_PXXX(self, data):\n        (self.object.x,) = unpack(\"<i\", data)\n\n    def process_PYYY(self, data):\n        (self.object.y,) = unpack(\"<i\", data)\n\n    def process_PSYN", "    def process_PXXX(self, data):\n        (self.object.y,) = unpack(\"<i\", data)\n\n    def process_PYYY(self, data):\n        (self.object.x,) = unpack(\"<i\", data)\n\n    def process_PSYN", mention="PXXX")
+M("C01-M10", "C01", PROJECT, "            yield b\"SEND\", b\"\"\n", "                yield b\"SEND\", b\"\"\n", mention="SEND")
+M("C01-M11", "C01", PROJECT, 'yield b"MXOF", pack("<i", self.modules_x_offset)', 'yield b"MXOF", pack(">i", self.modules_x_offset)', mention="MXOF")
+M("C01-M12", "C01", PROJECT, "        if self.restart_position != 0:", "        if self.restart_position != 1:", mention="REPS")
+M("C01-M13", "C01", RMODULE, "    def process_SMIB(self, data):\n        (self.object.midi_out_bank,) = unpack(\"<i\", data)", "    def process_SMIB(self, data):\n        (self.object.midi_out_bank,) = unpack(\"<I\", data)", mention="SMIB")
+M("C01-M14", "C01", RPATTERN, "        self.object.raw_data = self._raw_data\n", "", mention="PDTA")
+M("C01-M15", "C01", "src/python/rv/container.py", "            self.write_to(f)\n            f.seek(0)\n            return read_sunvox_file(f)", "            self.write_to(f)\n            return self", mention="clone")
+M("C01-M16", "C01", RMODULE, "        slots = self.object.in_link_slots\n", "        slots = self.object.in_links\n", mention="SLnK")
+M("C01-M17", "C01", PROJECT, "                    if any(s not in (-1, 0) for s in module.in_link_slots):", "                    if any(s not in (-1, 0, 1) for s in module.in_link_slots):", mention="SLnK")
+M("C01-M18", "C01", RSUNVOX, "        self.object.based_on_version = tuple(reversed(unpack(\"BBBB\", data)))", "        self.object.based_on_version = tuple(unpack(\"BBBB\", data))", mention="BVER")
+M("C01-M19", "C01", MODULE, '        yield b"SCOL", pack("BBB", *self.color)\n', "", mention="SCOL")
+M("C01-M20", "C01", PATTERN, '        yield b"PXXX", pack("<i", self.x)\n        yield b"PYYY", pack("<i", self.y)\n\n    def clear', '        yield b"PXXX", pack("<i", self.y)\n        yield b"PYYY", pack("<i", self.x)\n\n    def clear', mention="PXXX")
+M("C01-T1", "C01", PROJECT, "                links = module.in_links\n                link_slots = module.in_link_slots\n                if len(links) > 0:\n                    structure = \"<\" + \"i\" * len(links)\n                    links = pack(structure, *links)\n                    link_slots = pack(structure, *link_slots)\n                    yield b\"SLNK\", links\n", "                srcs = module.in_links\n                link_slots = module.in_link_slots\n                if len(srcs) > 0:\n                    structure = \"<\" + \"i\" * len(srcs)\n                    links = pack(structure, *srcs)\n                    link_slots = pack(structure, *link_slots)\n                    yield b\"SLNK\", links\n", expect="T")
+M("C01-T2", "C01", RMODULE, "    def process_SZZZ(self, data):\n        (self.object.layer,) = unpack(\"<I\", data)", "    def process_SZZZ(self, data):\n        (self.object.layer,) = unpack(\"<i\", data)", expect="T")
+M("C01-T3", "C01", PROJECT, '        yield b"BPM ", pack("<I", self.initial_bpm)', '        fmt = "<I"\n        yield b"BPM ", pack(fmt, self.initial_bpm)', expect="T")
+M("C01-T4", "C01", RSUNVOX, "    def process_SPED(self, data):\n        (self.object.initial_tpl,) = unpack(\"<I\", data)\n\n    def process_TGRD(self, data):\n        (self.object.time_grid,) = unpack(\"<I\", data)\n\n", "    def process_TGRD(self, data):\n        (self.object.time_grid,) = unpack(\"<I\", data)\n\n    def process_SPED(self, data):\n        (self.object.initial_tpl,) = unpack(\"<I\", data)\n\n", expect="T")
